@@ -23,7 +23,7 @@ from ..core.shrink import Budget, ddmin_list
 from ..memsim.models import RefCache
 from . import textgen as T
 from .driver import Ui
-from .subject import CLOCK, RISCV_INSP, TOY_INSP, Subject, install_clock, call_insp
+from .subject import CLOCK, RISCV_INSP, TOY_INSP, Subject, SutConstructionError, install_clock, call_insp
 
 STEP_CAP = 3000
 
@@ -137,8 +137,26 @@ def _user_choice(r, ui, isa, state):
     return {"dt": dt, "act": act, "arg": arg}
 
 
+def _construction_failed(trace, prop, e):
+    res = Result()
+    res.violate(prop, "simulation-could-not-be-constructed", got=str(e)[:200], settings=trace.get("settings"),
+                note="the front end's factory raised for a legal configuration")
+    res.digest = "construction-failed"
+    return res
+
+
 def run_ui(trace, prop, seed=None):
     """Execute (and, if trace['events'] is None, generate) one UI-mode episode."""
+    try:
+        return _run_ui(trace, prop, seed)
+    except SutConstructionError as e:
+        out = dict(trace)
+        if out.get("events") is None:
+            out["events"] = []
+        return out, _construction_failed(trace, prop, e)
+
+
+def _run_ui(trace, prop, seed=None):
     install_clock()
     CLOCK.reset()
     res = Result()
@@ -401,6 +419,13 @@ class _ReloadWatch:
 
 
 def run_api(trace, prop):
+    try:
+        return _run_api(trace, prop)
+    except SutConstructionError as e:
+        return _construction_failed(trace, prop, e)
+
+
+def _run_api(trace, prop):
     install_clock()
     CLOCK.reset()
     res = Result()
